@@ -29,7 +29,7 @@ ASSUME = [
     'the theorems are over Coq reals: the equalities between totals hold exactly there; on IEEE doubles they hold up to '
     'the rounding of the additions, which is what the oracle bound (8(n-1)+2k) 2^-53 sum|terms| accounts for',
     'mp.cpu_count() is a positive integer (Section variable cpu_count of Gen/Threads.v)',
-    'sample size N = number of rows (cross-sectional data; panel data: number of individuals, property C09)',
+    'sample size N = number of rows (cross-sectional data) / number of individuals (panel data: the per-individual value is the one simulate reports; how it is built from the rows is property C09)',
 ]
 
 
@@ -841,7 +841,9 @@ def gen_bootstrap_case(rng, i, fault=False, panel=False):
 LL_RULE = ('generated tables (1-40 rows, dyadic cells k/16), logit log likelihood with 1-3 parameters at dyadic parameter points, weight '
            'column / weight expression / none; every table evaluated with thread counts {1,2,3,n-1,n,n+3,0=cpu count} (given through the '
            'BIOGEME keyword or a Parameters object), on 2-3 row permutations and on 1-3 splits into 2-4 parts (and the one-row-per-part '
-           'split for n<=8); after changing the thread count through the setter; before / after estimate(run_bootstrap=True). '
+           'split for n<=8); after changing the thread count through the setter; before / after estimate(run_bootstrap=True), also when a '
+           'bootstrap re-estimation raises (fault injected into the k-th optimize call, caught) on cross-sectional and panel data; panel '
+           'tables (unequal individuals, log PanelLikelihoodTrajectory): one observation = one individual, scaled = total / number of individuals. '
            'Oracle: calculate_likelihood and calculate_likelihood_and_derivatives (f, g, h, bhhh; scaled and not) within '
            '(8(n-1)+2k) 2^-53 sum|terms| of the EXACT rational sum of weight x per-row value (simulate for f and the weight; the '
            'disaggregated evaluator for the derivatives). One evaluation = one BIOGEME object; non-trivial = at least 2 rows (threads), '
